@@ -23,6 +23,7 @@ def ctor_src(variant, include_sign, start, end, ext):
 
 
 def build(variant, include_sign, start, end, ext):
+    common.note_construction(ctor_src(variant, include_sign, start, end, ext))
     common.import_pregex()
     import pregex.meta.essentials as me
     cls = getattr(me, variant)
